@@ -34,6 +34,21 @@ and `signal` are enabled at every stage: a Kill() can arrive at any point of the
 `init c` is the state in which the event loop begins when nothing has struck; it is reached
 from `init0 c` by the fault-free schedule `startupSchedule` (`startup_reaches_loop`).
 
+EXEC.  A message of kind `exec` (an `execMsg`, sent by a command goroutine like every command
+result) makes the event loop run `p.exec` ON ITS OWN GOROUTINE: ReleaseTerminal (`execRelease ph`:
+ignore signals, cancel the reader, wait for the read loop or 500 ms, stop the renderer,
+restoreTerminalState), the external command (`execCmd`: USER CODE, left only by the external labels
+`execCmdReturns` / `execCmdPanics`), RestoreTerminal (`execRestore ph`: obey signals again, a NEW
+read loop - an old one that outlived the 500 ms is leaked and only counted -, the renderer listening
+again, the mode sequences written again, the goroutines that Send the repaint / size message and the
+callback's message), and then the message goes on to Update (`callback`).  The steps `exRel*` /
+`exRes*` are lifecycle labels, each enabled only at its phase; `execReleaseFails` /
+`execRestoreFails` are the error arms.  `ignoreSignals` is therefore DYNAMIC: set by `exRelCancel`,
+cleared by `exResReader` / `execRestoreFails` (whatever the configuration said: a WithoutSignals
+program obeys signals after its first Exec).  Two history variables that no guard reads say how
+the flag got its value: `releaseStuck` (a release was not followed by a restore: the release
+failed, or the command panicked) and `restoredOnce` (RestoreTerminal has set the flag).
+
 THE RENDERER'S HALT.  `listen = notStarted | idle | flushing | stopped` is the listen
 goroutine together with the flag `listening` (`listening = true` iff `idle` or `flushing`).
 `shRenderer` is `halt()`: nothing when the renderer has not been created (`p.renderer ==
@@ -43,7 +58,7 @@ inside the user's writer.
 
 User code is a state a goroutine leaves only by an EXTERNAL label
 (`callbackReturns`, `viewReturns`, `writerReturns`, `startWriterReturns`, `initReturns`,
-`firstViewReturns`): the theorems say that once termination has begun and no user
+`firstViewReturns`, `execCmdReturns`): the theorems say that once termination has begun and no user
 callback is in progress, internal ("lifecycle") steps alone bring Run to its return -
 during the start-up: together with the returns of the start-up's own user code.
 
@@ -57,7 +72,10 @@ Not modelled (limits): the input selection at the very beginning of Run (it may 
 between Run's appends (`handlers.add`) and the iteration of a concurrent Kill()'s
 `handlers.shutdown()` - a killer's `shHandlers` waits for the handlers that exist at that
 moment; a reader whose Cancel() claims success but whose Read never returns is covered by
-the 500 ms timeout transition `shWaitReadTimeout`.
+the 500 ms timeout transitions `shWaitReadTimeout` / `exRelWaitTimeout`; a read loop that outlives
+the release of an Exec is leaked and only counted (`leakedReaders`): what it might still send is not
+modelled; ReleaseTerminal / RestoreTerminal called by the program itself from another goroutine
+(outside an Exec) are not modelled.
 -/
 namespace Tea.Runtime.Life
 
@@ -71,12 +89,25 @@ inductive ErrClass where
   | nil | interrupted | killed | reader | startup
   deriving DecidableEq, Repr
 
+/-- the phases of ReleaseTerminal: "about to ..." -/
+inductive RelPhase where
+  | cancelReader | waitRead | renderer | restore
+  deriving DecidableEq, Repr
+
+/-- the phases of RestoreTerminal: "about to ..." -/
+inductive ResPhase where
+  | reader | renderer | spawn
+  deriving DecidableEq, Repr
+
 inductive ElPc where
   | notStarted          -- Run is still starting up: the event loop has not begun
   | select
   | callback            -- filter / Update in progress (user code)
   | cmdSend             -- `select { case <-ctx.Done(): ; case cmds <- cmd: }`
   | view                -- View in progress (user code)
+  | execRelease (ph : RelPhase)   -- Exec: inside ReleaseTerminal, about to do `ph`
+  | execCmd                       -- Exec: the external command runs (user code)
+  | execRestore (ph : ResPhase)   -- Exec: inside RestoreTerminal, about to do `ph`
   | exited (c : Cause)
   deriving DecidableEq, Repr
 
@@ -118,7 +149,7 @@ inductive RunPc where
 
 /-- what a blocked Send carries -/
 inductive SendKind where
-  | user | quit | interrupt
+  | user | quit | interrupt | exec
   deriving DecidableEq, Repr
 
 inductive APc where
@@ -132,7 +163,7 @@ structure Caller where
 
 structure St where
   cancelable : Bool                 -- the input reader's Cancel() works (file input) or not (fallback)
-  ignoreSignals : Bool := false
+  ignoreSignals : Bool := false     -- dynamic: set by ReleaseTerminal, cleared by RestoreTerminal
   withSignalHandler : Bool := true  -- the configuration, read by the start-up steps
   withResize : Bool := true
   withInitCmd : Bool := false
@@ -157,6 +188,9 @@ structure St where
   waiters : List APc := []
   finishedClosed : Bool := false
   restores : Nat := 0               -- how many times restoreTerminalState ran
+  leakedReaders : Nat := 0          -- read loops that outlived a release: never waited for, only counted
+  releaseStuck : Bool := false      -- history: a release was not followed by a restore (release failed / command panicked)
+  restoredOnce : Bool := false      -- history: RestoreTerminal has set `ignoreSignals`
   deriving Repr
 
 inductive Label where
@@ -167,6 +201,11 @@ inductive Label where
   -- external, start-up: the user's writer / Init / the first View return or fail
   | startWriterReturns | startTermFails | initReturns | initPanics | firstViewReturns | firstViewPanics
   | startReaderFails
+  -- external, Exec: the command returns / panics, ReleaseTerminal / RestoreTerminal fails
+  | execCmdReturns | execCmdPanics | execRestoreFails | execReleaseFails
+  -- lifecycle: internal steps of an Exec on the event-loop goroutine
+  | exRelCancel | exRelWaitRead | exRelWaitTimeout | exRelRenderer | exRelRestore
+  | exResReader | exResRenderer | exResSpawn
   -- lifecycle: internal steps of Run's start-up
   | suSigHandler | suNewRenderer | suStartRenderer | suSpawnInit | suOpenReader | suSpawnHandlers
   -- lifecycle: internal steps of the runtime
@@ -190,7 +229,7 @@ def Label.isLifecycle : Label → Bool
   | .callbackReturns | .callbackPanics | .viewReturns | .viewPanics | .writerReturns | .tick
   | .signal _ | .decoded | .readError | .readEOF | .sendCall _ | .waitCall _ | .killCall | .parentCancel
   | .startWriterReturns | .startTermFails | .initReturns | .initPanics | .firstViewReturns | .firstViewPanics
-  | .startReaderFails => false
+  | .startReaderFails | .execCmdReturns | .execCmdPanics | .execRestoreFails | .execReleaseFails => false
   | _ => true
 
 def handlerGone : HPc → Bool
@@ -274,6 +313,64 @@ def step (s : St) : Label → Option St
     if s.runPc = .starting .openReader ∧ s.withInput = true then
       some { s with runPc := .tail, runSh := .cancel, runKill := true, runErr := .startup }
     else none
+  -- ---------------------------------------------------------------- external, Exec
+  | .execCmdReturns => if s.el = .execCmd then some { s with el := .execRestore .reader } else none
+  | .execCmdPanics =>        -- recovered by Run's deferred handler; nobody restores `ignoreSignals`
+    if s.el = .execCmd then some { s with el := .exited .panic, releaseStuck := true } else none
+  | .execRestoreFails =>     -- RestoreTerminal failed: signals obeyed again, nothing restarted, the callback's message
+    if s.el = .execRestore .reader then
+      some { s with ignoreSignals := false, releaseStuck := false, restoredOnce := true,
+                    senders := s.senders ++ [{ kind := .user, pc := .blocked }], el := .callback }
+    else none
+  | .execReleaseFails =>     -- restoreTerminalState failed: signals stay ignored, reader / renderer as they are
+    if s.el = .execRelease .restore then
+      some { s with releaseStuck := true,
+                    senders := s.senders ++ [{ kind := .user, pc := .blocked }], el := .callback }
+    else none
+  -- ---------------------------------------------------------------- Exec, on the event-loop goroutine
+  | .exRelCancel =>
+    if s.el = .execRelease .cancelReader then
+      some { s with ignoreSignals := true,
+                    readerCancelRequested :=
+                      if s.reader ≠ .absent ∧ s.cancelable = true then true else s.readerCancelRequested,
+                    el := .execRelease .waitRead }
+    else none
+  | .exRelWaitRead =>
+    if s.el = .execRelease .waitRead ∧ s.reader = .exited then some { s with el := .execRelease .renderer } else none
+  | .exRelWaitTimeout =>     -- the 500 ms timeout; the only way when there is no reader
+    if s.el = .execRelease .waitRead then some { s with el := .execRelease .renderer } else none
+  | .exRelRenderer =>        -- `if p.renderer != nil { p.renderer.stop() .. }`: halt() as in `shRenderer`
+    if s.el = .execRelease .renderer then
+      if s.rendererMade = false then some { s with el := .execRelease .restore }
+      else match s.listen with
+        | .notStarted | .stopped => some { s with el := .execRelease .restore }
+        | .idle => some { s with listen := .stopped, el := .execRelease .restore }
+        | .flushing => none
+    else none
+  | .exRelRestore =>         -- restoreTerminalState; afterwards the command runs (user code)
+    if s.el = .execRelease .restore then
+      some { s with restores := s.restores + 1, modesDirty := false, el := .execCmd }
+    else none
+  | .exResReader =>          -- signals obeyed again; a NEW read loop (an old one still running is leaked)
+    if s.el = .execRestore .reader then
+      if s.withInput = true then
+        some { s with ignoreSignals := false, releaseStuck := false, restoredOnce := true,
+                      leakedReaders := if s.reader = .absent ∨ s.reader = .exited then s.leakedReaders
+                                       else s.leakedReaders + 1,
+                      reader := .reading, readerCancelRequested := false, el := .execRestore .renderer }
+      else some { s with ignoreSignals := false, releaseStuck := false, restoredOnce := true,
+                         el := .execRestore .renderer }
+    else none
+  | .exResRenderer =>        -- the mode sequences again; `start()`: nothing on a running renderer
+    if s.el = .execRestore .renderer then
+      some { s with listen := if s.listen = .notStarted ∨ s.listen = .stopped then .idle else s.listen,
+                    modesDirty := true, el := .execRestore .spawn }
+    else none
+  | .exResSpawn =>           -- `go p.Send(repaintMsg / size)`, `go p.Send(fn(err))`; then Update receives the execMsg
+    if s.el = .execRestore .spawn then
+      some { s with senders := s.senders ++ [{ kind := .user, pc := .blocked }, { kind := .user, pc := .blocked }],
+                    el := .callback }
+    else none
   -- ---------------------------------------------------------------- Run's start-up
   | .suSigHandler =>
     if s.runPc = .starting .sigHandler then
@@ -309,7 +406,8 @@ def step (s : St) : Label → Option St
                       el := match c.kind with
                         | .user => .callback
                         | .quit => .exited .quit
-                        | .interrupt => .exited .interrupt }
+                        | .interrupt => .exited .interrupt
+                        | .exec => .execRelease .cancelReader }
       else none
     | none => none
   | .elRecvSig =>
@@ -441,6 +539,25 @@ def startupSchedule : List Label :=
   [.suSigHandler, .suNewRenderer, .startWriterReturns, .suStartRenderer, .initReturns, .suSpawnInit,
    .firstViewReturns, .suOpenReader, .suSpawnHandlers]
 
+/-- the loop is inside an Exec (ReleaseTerminal, the command, RestoreTerminal) -/
+def ElPc.inExec : ElPc → Bool
+  | .execRelease _ | .execCmd | .execRestore _ => true
+  | _ => false
+
+/-- the phases of an Exec in which the terminal is released: after `exRelCancel` (signals ignored) and
+before `exResReader` (signals obeyed again) -/
+def ElPc.released : ElPc → Bool
+  | .execRelease .waitRead | .execRelease .renderer | .execRelease .restore | .execCmd
+  | .execRestore .reader => true
+  | _ => false
+
+/-- the fault-free Exec of the message of sender `e`: ReleaseTerminal (the wait for the read loop ends
+by `wait`: the 500 ms timeout, or `exRelWaitRead` when the read loop has exited), the command
+returns, RestoreTerminal -/
+def execSchedule (e : Nat) (wait : Label := .exRelWaitTimeout) : List Label :=
+  [.elRecvSender e, .exRelCancel, wait, .exRelRenderer, .exRelRestore, .execCmdReturns, .exResReader,
+   .exResRenderer, .exResSpawn]
+
 /-- termination has begun: the context is cancelled, or the loop has exited, or a shutdown caller
 on another goroutine exists, or Run is past its loop / its start-up (after a start-up failure or a
 start-up panic Run is in its tail without any of the former) -/
@@ -449,9 +566,11 @@ def Terminating (s : St) : Prop :=
 
 /-- no user code is in progress on a goroutine the shutdown depends on: the loop is not inside
 filter / Update / View, the listen goroutine is not inside the user's writer, and Run is not inside
-the user code of its start-up (the writer of the mode sequences, Init, the first View) -/
+the user code of its start-up (the writer of the mode sequences, Init, the first View), and the
+loop is not waiting for the command of an Exec -/
 def NoCallback (s : St) : Prop :=
   s.el ≠ .callback ∧ s.el ≠ .view ∧ s.listen ≠ .flushing ∧
-  s.runPc ≠ .starting .modeWrites ∧ s.runPc ≠ .starting .initCall ∧ s.runPc ≠ .starting .firstView
+  s.runPc ≠ .starting .modeWrites ∧ s.runPc ≠ .starting .initCall ∧ s.runPc ≠ .starting .firstView ∧
+  s.el ≠ .execCmd
 
 end Tea.Runtime.Life
